@@ -25,7 +25,7 @@ Definition onb (f : list ch -> list ch) (s : list N) : list N := encode (f (deco
 (* ---- facts about the regenerated tables (complete evaluation of finite tables) ---- *)
 
 Definition plainNb (n : N) : bool :=
-  negb (n =? 39) && negb (n =? 34) && negb (n =? 96) && negb (n =? 45) && negb (n =? 42) && negb (n =? 47) && negb (n =? 10).
+  negb (nq n =? 39) && negb (nq n =? 34) && negb (n =? 96) && negb (n =? 45) && negb (n =? 42) && negb (n =? 47) && negb (n =? 10).
 Lemma plainNb_spec : forall n, plainNb n = true -> plainN n.
 Proof.
   intros n H. unfold plainNb in H. repeat (apply andb_prop in H; destruct H as [H ?]).
@@ -77,5 +77,5 @@ Proof. vm_compute. reflexivity. Qed.
 (* space, tab and newline are spaces; the delimiters of the scanner are not *)
 Lemma space_32_9 : space 32 = true /\ space 9 = true /\ space 10 = true.
 Proof. vm_compute. repeat split. Qed.
-Lemma sp_nodelim : space 39 = false /\ space 34 = false /\ space 96 = false /\ space 45 = false /\ space 42 = false /\ space 47 = false.
+Lemma sp_nodelim : sp_ok space.
 Proof. vm_compute. repeat split. Qed.
